@@ -49,7 +49,7 @@ type SocketConnect struct {
 
 // Call the function with the arguments provided.
 func (f *SocketConnect) Call(s *slip.Scope, args slip.List, depth int) slip.Object {
-	slip.CheckArgCount(s, depth, f, args, 1, 3)
+	slip.CheckArgCount(s, depth, f, args, 1, -1)
 	self, ok := args[0].(*flavors.Instance)
 	if !ok || !self.IsA("socket") {
 		slip.TypePanic(s, depth, "socket", args[0], "socket")
